@@ -244,6 +244,33 @@ theorem coupled_join_others {s : Srv} {b : Bot} (hw : SrvWF s) (hc : Coupled s b
     rw [foldl_joinOne_fields, ← hkey]
     exact seen_n2h b u
 
+/-! ### PRIVMSG: nothing changes but the sender's hostmask is recorded -/
+
+theorem cmdOf_PRIVMSG : cmdOf "PRIVMSG".toList = .other := by decide
+
+theorem coupled_say {s : Srv} {b : Bot} (hw : SrvWF s) (hc : Coupled s b) (n t x : Str) :
+    Coupled (s.step (.say n t x)).1 (b.recvAll (s.step (.say n t x)).2) := by
+  simp only [Srv.step]
+  split
+  · exact hc
+  · rename_i u hu
+    rw [Srv.user_eq] at hu
+    split
+    · exact hc
+    · split
+      · simp only [recvAll_cons, recv_emit, recvAll_nil]
+        obtain ⟨hc0, hfeed⟩ := feed_from_user hw hc hu "PRIVMSG".toList
+          [if lower t = s.botKey then s.bot else ((s.chan t).map (·.name)).getD t, x]
+          (setters_out_ok "PRIVMSG".toList (by decide)) (by decide) (fun b0 => by simp only [Bot.ircCmd, cmdOf_PRIVMSG])
+        rw [hfeed]
+        simp only [Bot.stateCmd, cmdOf_PRIVMSG]
+        apply coupled_told_add hc0
+        intro u' hu'
+        rw [hu] at hu'; cases hu'
+        rw [← (hw.userOK hu).1]
+        exact seen_n2h b u
+      · exact hc
+
 /-! ### QUIT -/
 
 theorem Tracks.remove_absent {full : Prop} {S : List Str} {ms : List (Str × Flags)} {P : Flags → Prop}
